@@ -126,7 +126,8 @@ class C16(Prop):
         "singleLinkage_sizes", "idFilterDigital_spec", "quicksort_permutation", "blosum_formula", "blosum_sum_nonneg",
         "pb_counts_digital", "pb_counts_text", "pb_relisting_digital", "pb_relisting_text", "gsc_sum_nonneg",
         "gsc_identical_rows_fails_at", "blosum_identical_rows", "pairIdMx_spec", "blosum_relisting",
-        "singleLinkage_numbering_not_first_seen", "gsc_relisting_fails_at", "pbText_is", "pbDigital_is")]
+        "singleLinkage_numbering_not_first_seen", "gsc_relisting_fails_at", "pbText_is", "pbDigital_is",
+        "upgma_joins_minimum", "threshold_at_attained_identity")]
     claimed = True
     technique = ("Lean 4 proof over the exact (Q) instance of a numeric-class-polymorphic executable model of esl_distance/esl_cluster/"
                  "esl_msacluster/esl_quicksort/esl_msaweight/esl_tree(UPGMA) + bit-exact differential correspondence of the Float instance "
@@ -135,7 +136,12 @@ class C16(Prop):
                   "consensus rule / fragment threshold / RF line: PairId = identical pairs / shorter ungapped length (symmetric, 1 on equal "
                   "non-empty rows, 0 on empty, EINVAL when unaligned); single linkage = exactly the connected components, clusters "
                   "numbered 0..nc-1 all non-empty; the greedy %id filter keeps an independent set to which no dropped row can be added; "
-                  "PB weights are >= 0, sum to N, equal the 1/(r*c) formula normalised by the row's residue count, and agree on identical rows. "
+                  "PB weights are >= 0, sum to N, equal the 1/(r*c) formula (true column counts, whatever the fragment rule) normalised by the "
+                  "row's residue count, agree on identical rows and follow the rows under relisting; BLOSUM weights = (N/#clusters)/|cluster|, "
+                  ">= 0, sum N, agree on identical rows, follow the rows under relisting; GSC weights >= 0 and sum N; esl_quicksort returns a "
+                  "permutation for any comparator (so the digital filter tries every row once, any preference rule); cluster sizes/count "
+                  "consistent with the assignment; UPGMA joins a minimum pair each pass; rounded threshold tests at attained identities "
+                  "decide like exact ones for any monotone rounding with error < 1/(2nq). "
                   "The hand model is tied to the working tree by an exact differential run (weights as bit patterns, thresholds equal to "
                   "attained identities) and property monitors recompute every claim independently on the implementation's output.")
     level_note = ("Theorems are about exact rational arithmetic (L1); the binary64 results differ by rounding (L0, monitors use 1e-9). "
